@@ -851,6 +851,17 @@ def gen_probe(rng, exhaustive_index=None):
         s = "/" + s
     if trail:
         s = s + "/"
+    if exhaustive_index is None and rng.chance(1, 25):
+        # refused paths near the frame bound, and paths whose debug rendering is several times longer
+        k = rng.below(4)
+        if k == 0:
+            s = "../" + "a" * rng.pick([1048500, 1048527, 1048540, 1048555])
+        elif k == 1:
+            s = "../" + "\x01" * rng.pick([210000, 300000])
+        elif k == 2:
+            s = "/" + "\\" * rng.pick([525000, 600000])
+        else:
+            s = "x/../" + "\n\"'" * 180000
     return s
 
 
@@ -942,13 +953,22 @@ def _c11_worker(args):
             sent, root, home = fresh()
             s0 = snapshot(sent)
             s0 = {k: v for k, v in s0.items() if not k.startswith("ROOT/")}
-            if kind == "Get":
-                probe = cbor.req_get(path)
-            elif kind == "Delete":
-                probe = cbor.req_delete(path, rng.pick([None, b3.data(b"seed")]))
-            else:
-                body = rng.pick([b"", b"x", b"y" * 300 * 1024, cbor.req_put("evil", None, 1, b3.data(b"z")) + b"z" + cbor.req_delete("seed.txt", None)])
-                probe = cbor.req_put(path, rng.pick([None, b3.data(b"seed")]), len(body), b3.data(body)) + body
+            def mk(pth):
+                if kind == "Get":
+                    return cbor.req_get(pth), b""
+                if kind == "Delete":
+                    return cbor.req_delete(pth, dexp), b""
+                return cbor.req_put(pth, pexp, len(body), b3.data(body)), body
+
+            dexp = rng.pick([None, b3.data(b"seed")])
+            pexp = rng.pick([None, b3.data(b"seed")])
+            body = rng.pick([b"", b"x", b"y" * 300 * 1024, cbor.req_put("evil", None, 1, b3.data(b"z")) + b"z" + cbor.req_delete("seed.txt", None)])
+            fr, tail_body = mk(path)
+            while len(fr) - 4 > MAX_FRAME and len(path) > 16:
+                # the request itself must be a legal frame: trim the path until it fits
+                path = path[: len(path) - (len(fr) - 4 - MAX_FRAME) - rng.range(0, 40)]
+                fr, tail_body = mk(path)
+            probe = fr + tail_body
             trace = os.path.join(wd, "tr")
             r = session(root, cbor.MAGIC + cbor.req_hello() + probe + b"".join(tail), base_env(home), trace=trace)
             if r["timed_out"]:
@@ -1077,6 +1097,13 @@ def gen_c12_input(rng, b3, idx, sweep=None):
     k = rng.below(13)
     prefixes = []
     inval = False
+    if k == 12 and rng.chance(1, 2):
+        # a final frame whose prefix overstates a COMPLETE request body, then EOF: the frame never
+        # arrives in full, so the request in it must not be carried out
+        body = rng.pick([cbor.enc({"Delete": {"path": "keep", "expected": cbor.h2list(b3.data(b"keep me"))}}), cbor.enc({"Put": {"path": "planted", "expected": None, "len": 0, "hash": cbor.h2list(b3.data(b""))}}), cbor.enc({"Delete": {"path": "keep", "expected": None}})])
+        over = rng.pick([1, 2, 7, 100, 4096])
+        data = cbor.MAGIC + cbor.req_hello() + struct.pack(">I", len(body) + over) + body
+        return {"data": data, "cls": "overstated-prefix-complete-body", "invalid": True, "prefixes": [], "content": content}
     if k == 12:
         # stdin closed inside a length prefix whose bytes so far are not all zero
         pre = rng.pick([b"\x01", b"\x00\x01", b"\x00\x00\x01", b"\xff\xff", b"\x00\x10\x00", b"\x7f"])
@@ -1396,7 +1423,8 @@ def gen_local_tree(rng, universe, hostile=True):
 
 def hub_universe(rng, n=6):
     from fsutil import HOSTILE_COMPONENTS
-    pool = ["a", "d/b", "d/e/c", "with space", "it's", "q?x", "st*r", "new\nline", "-dash", "é日", "$x", "..x", "x..", "back\\slash", "tab\tx"]
+    pool = ["a", "d/b", "d/e/c", "with space", "it's", "q?x", "st*r", "new\nline", "-dash", "é日", "$x", "..x", "x..", "back\\slash", "tab\tx",
+            ".copiaignore", ".copia-notes/todo", ".copi", "d/.copia/x"]
     return rng.shuffle(pool)[:n]
 
 
